@@ -109,3 +109,74 @@ func VerifC15UploadRace() {
 	<-done
 	verifReach("wait-returned")
 }
+
+// ---- C09: a layer counts as pushed only if THIS registry accepted it (sequential pushes) ----
+
+var (
+	vfAccepted   map[string]bool // registry host -> the layer is there
+	vfUpRegistry string          // the registry the upload in flight was prepared against
+	vfUpPrepares int
+)
+
+func vfBaseURLHost(mp ModelPath) *url.URL { return &url.URL{Scheme: "https", Host: mp.Registry} }
+
+// HEAD: is the blob on that registry? every other request is the commit of the upload in flight
+func vfRegistryRequest(ctx context.Context, method string, requestURL *url.URL, headers http.Header, body io.ReadSeeker, regOpts *registryOptions) (*http.Response, error) {
+	if method == http.MethodHead {
+		if vfAccepted[requestURL.Host] {
+			return &http.Response{StatusCode: 200, Body: vfBody0{}}, nil
+		}
+		return nil, os.ErrNotExist
+	}
+	resp, err := vfCommitRequest(ctx, method, requestURL, headers, body, regOpts)
+	if err == nil {
+		vfAccepted[vfUpRegistry] = true
+	}
+	return resp, err
+}
+
+// Prepare: the POST that opens the session fails, opens a session (one part to upload), or is answered
+// 201: the registry has mounted the blob from another repository and there is nothing to upload
+func vfUpPrepare3(b *blobUpload, ctx context.Context, requestURL *url.URL, opts *registryOptions) error {
+	vfUpPrepares++
+	vfUpRegistry = requestURL.Host
+	switch verifChoice(3) {
+	case 1:
+		return errors.New("POST uploads failed")
+	case 2:
+		b.Total = 1
+		b.Completed.Store(1)
+		b.done = true // as the real Prepare does on 201 Created
+		vfAccepted[requestURL.Host] = true
+		return nil
+	}
+	b.Total = 1
+	b.Parts = append(b.Parts, blobUploadPart{N: 0, Offset: 0, Size: 1})
+	b.nextURL = make(chan *url.URL, 1)
+	b.nextURL <- &url.URL{Scheme: "https", Host: requestURL.Host, Path: "/v2/library/m/blobs/uploads/1"}
+	return nil
+}
+
+// VerifC09UploadTwice: the same layer is pushed to registry a and then to registry a or b, one push after
+// the other: a push that reports success means the layer is on THAT registry.
+func VerifC09UploadTwice() {
+	vfMgr = map[string]any{}
+	vfAccepted = map[string]bool{}
+	vfCommitAccepted, vfCommits, vfPartsAccepted, vfUpPrepares = false, 0, 0, 0
+	vfUpSettled, vfLateTicks = false, 0
+	layer := vfUploadLayer()
+	layer.From = "library/base" // a layer inherited from another model: the registry may mount it
+	regs := []string{"a.example", "b.example"}
+	for k := 0; k < 2; k++ {
+		reg := regs[0]
+		if k == 1 {
+			reg = regs[verifChoice(2)]
+		}
+		err := uploadBlob(context.Background(), ModelPath{Registry: reg, Namespace: "library", Repository: "m"}, layer, &registryOptions{}, func(api.ProgressResponse) {})
+		verifReach("upload-returned")
+		if err == nil {
+			verifReach("upload-reported-ok")
+			verifAssert(vfAccepted[reg], "push-reports-a-layer-as-uploaded-that-this-registry-never-accepted")
+		}
+	}
+}
